@@ -5,7 +5,9 @@ package unmarshal
 
 import (
 	"bytes"
+	"context"
 	"io"
+	"time"
 
 	"github.com/metrico/qryn/zzverif/vrt"
 )
@@ -211,5 +213,226 @@ func VH_C03_lokijson_large() {
 	vrt.Assert(got[0].msg == l1+"aaaa", "first-row-keeps-its-own-line-after-the-buffer-refill")
 	vrt.Assert(len(got[1].msg) == 66000, "large-line-kept")
 	vrt.Assert(got[2].msg == "zzzz", "last-row-line")
+	vrt.Reach("end")
+}
+
+// VH_C03_datadog_metrics: Datadog series intake: 1-2 series with 1-2 points each, optional resources, any of
+// two key orders. Every point becomes one metric row with its own timestamp (seconds -> ns) and value under
+// the labels of ITS OWN series (metric name, resources) - nothing from the previous series.
+func VH_C03_datadog_metrics() {
+	vrt.Unwind(3000)
+	vrt.ConcreteUnwind(400000)
+	ns := vrt.Len("series", 1, 2)
+	type pt struct {
+		ts  int64
+		val float64
+	}
+	type ser struct {
+		name   string
+		hasRes bool
+		pts    []pt
+	}
+	var sers []ser
+	body := `{"series":[`
+	vals := []string{"1.5", "2.25", "3", "4.75"}
+	fvals := []float64{1.5, 2.25, 3, 4.75}
+	k := 0
+	for s := 0; s < ns; s++ {
+		se := ser{name: "m" + string(rune('a'+s)), hasRes: vrt.Bool("resources-present")}
+		points := `"points":[`
+		np := vrt.Len("points", 1, 2)
+		for p := 0; p < np; p++ {
+			d := vjDigit("ts-digit")
+			ts := int64(1700000000+int64(d[0]-'0')) * 1000000000
+			if p > 0 {
+				points += ","
+			}
+			if vrt.Bool("value-before-timestamp") {
+				points += `{"value":` + vals[k] + `,"timestamp":170000000` + d + `}`
+			} else {
+				points += `{"timestamp":170000000` + d + `,"value":` + vals[k] + `}`
+			}
+			se.pts = append(se.pts, pt{ts, fvals[k]})
+			k++
+		}
+		points += `]`
+		item := `"metric":"` + se.name + `"`
+		if se.hasRes {
+			item += `,"resources":[{"name":"h` + string(rune('a'+s)) + `","type":"host"}]`
+		}
+		if vrt.Bool("points-first") {
+			item = points + "," + item
+		} else {
+			item = item + "," + points
+		}
+		if s > 0 {
+			body += ","
+		}
+		body += "{" + item + "}"
+		sers = append(sers, se)
+	}
+	body += `]}`
+	dec := &datadogMetricsRequestDec{ctx: &ParserCtx{bodyReader: bytes.NewReader([]byte(body))}}
+	var got []vhEntry
+	dec.SetOnEntries(vhCollect(&got))
+	err := dec.Decode()
+	vrt.Assert(err == nil, "well-formed-body-accepted")
+	i := 0
+	for s, se := range sers {
+		for _, p := range se.pts {
+			vrt.Assert(i < len(got), "one-row-per-point")
+			vrt.Assert(got[i].ts == p.ts, "row-timestamp")
+			vrt.Assert(got[i].val == p.val, "row-value")
+			vrt.Assert(got[i].tp == 2, "row-type-metric")
+			vrt.Assert(voHas(got[i].labels, "__name__", se.name), "row-under-its-own-metric-name")
+			want := 1
+			if se.hasRes {
+				want += 2
+				vrt.Assert(voHas(got[i].labels, "resource1_name", "h"+string(rune('a'+s))), "row-has-its-own-resource")
+			}
+			vrt.Assert(len(got[i].labels) == want, "row-has-no-label-from-another-series")
+			i++
+		}
+	}
+	vrt.Assert(i == len(got), "no-extra-row")
+	vrt.Reach("end")
+}
+
+// VH_C03_influx: Influx line protocol through the real telegraf stream parser (executed from SSA): 1-2
+// lines, each a metric line (1-2 numeric fields) or a log line (message field), with a symbolic tag value
+// byte, field digit and timestamp digit. Every numeric field of a metric line becomes one metric row named
+// after the field, every log line one log row; each row carries its own line's timestamp, tags and
+// measurement.
+func VH_C03_influx() {
+	vrt.Unwind(6000)
+	vrt.ConcreteUnwind(2000000)
+	vrt.Steps(60000000)
+	n := vrt.Len("lines", 1, 2)
+	type row struct {
+		ts     int64
+		msg    string
+		val    float64
+		tp     uint8
+		name   string
+		host   string
+		measur string
+	}
+	var want []row
+	body := ""
+	for i := 0; i < n; i++ {
+		hb := vrt.Byte("tag-value")
+		vrt.Assume(hb >= 'a' && hb <= 'z')
+		host := "h" + string([]byte{hb})
+		td := vjDigit("ts-digit")
+		ts := int64(1700000000000000000) + int64(td[0]-'0')
+		me := "cpu" + string(rune('a'+i))
+		if vrt.Bool("log-line") {
+			body += me + ",host=" + host + ` message="hello ` + string(rune('a'+i)) + `" 170000000000000000` + td + "\n"
+			want = append(want, row{ts: ts, msg: "hello " + string(rune('a'+i)), tp: 1, host: host, measur: me})
+			continue
+		}
+		fd := vjDigit("field-digit")
+		line := me + ",host=" + host + " usage=" + fd + "i"
+		want = append(want, row{ts: ts, val: float64(fd[0] - '0'), tp: 2, name: "usage", host: host, measur: me})
+		body += line + " 170000000000000000" + td + "\n"
+	}
+	ctx := context.WithValue(context.Background(), "precision", time.Nanosecond)
+	dec := &influxDec{ctx: &ParserCtx{bodyReader: bytes.NewReader([]byte(body)), ctx: ctx}}
+	var got []vhEntry
+	dec.SetOnEntries(vhCollect(&got))
+	err := dec.Decode()
+	vrt.Assert(err == nil, "well-formed-body-accepted")
+	vrt.Assert(len(got) == len(want), "one-row-per-field-or-log-line")
+	for i, w := range want {
+		vrt.Assert(got[i].ts == w.ts, "row-timestamp")
+		vrt.Assert(got[i].tp == w.tp, "row-type")
+		vrt.Assert(got[i].msg == w.msg, "row-line")
+		vrt.Assert(got[i].val == w.val, "row-value")
+		vrt.Assert(voHas(got[i].labels, "measurement", w.measur), "row-measurement-of-its-own-line")
+		vrt.Assert(voHas(got[i].labels, "host", w.host), "row-tag-of-its-own-line")
+		if w.tp == 2 {
+			vrt.Assert(voHas(got[i].labels, "__name__", w.name), "row-named-after-its-field")
+		}
+	}
+	vrt.Reach("end")
+}
+
+// VH_C03_lokijson_legacy: Loki JSON push, legacy "labels"/"entries" layout: the label set is a LogQL-style
+// text ({app="x"}), timestamps are RFC 3339 text (table of three instants incl. a zone offset and
+// nanoseconds) or integer nanoseconds (symbolic digit), entries carry a line, a value, or both.
+func VH_C03_lokijson_legacy() {
+	vrt.Unwind(4000)
+	vrt.ConcreteUnwind(600000)
+	ns := vrt.Len("streams", 1, 2)
+	var want []vhEntry
+	body := `{"streams":[`
+	stamps := []string{"2021-12-26T16:00:06.944Z", "2021-12-26T18:00:06.000000001+02:00", "1970-01-01T00:00:01Z"}
+	stampNs := []int64{1640534406944000000, 1640534406000000001, 1000000000}
+	for s := 0; s < ns; s++ {
+		lv := vjPrintable("label-value")
+		name := "app" + string(rune('0'+s))
+		labels := `"labels":"{` + name + `=\"` + lv + `\"}"`
+		entries := `"entries":[`
+		ne := vrt.Len("entries", 0, 2-s) // the second stream has at most one entry (bounds the path count)
+		for e := 0; e < ne; e++ {
+			var tsText string
+			var ts int64
+			k := 3
+			if e == 0 {
+				k = vrt.Choice("timestamp-form", 4) // the first entry of a stream varies the timestamp form
+			}
+			if k < 3 {
+				tsText, ts = stamps[k], stampNs[k]
+			} else {
+				d := vjDigit("ts-digit")
+				tsText, ts = "170000000000000000"+d, int64(1700000000000000000)+int64(d[0]-'0')
+			}
+			line := vjPrintable("line")
+			item := `{"ts":"` + tsText + `"`
+			tp := uint8(0)
+			msg := ""
+			val := float64(0)
+			switch vrt.Choice("entry-kind", 3) {
+			case 0:
+				item += `,"line":"` + line + `"`
+				tp, msg = 1, line
+			case 1:
+				item += `,"value":2.5`
+				tp, val = 2, 2.5
+			default:
+				item += `,"line":"` + line + `","value":2.5`
+				tp, msg, val = 0, line, 2.5
+			}
+			item += `}`
+			if e > 0 {
+				entries += ","
+			}
+			entries += item
+			want = append(want, vhEntry{labels: [][]string{{name, lv}}, ts: ts, msg: msg, val: val, tp: tp})
+		}
+		entries += `]`
+		if s > 0 {
+			body += ","
+		}
+		if vrt.Bool("entries-before-labels") {
+			body += "{" + entries + "," + labels + "}"
+		} else {
+			body += "{" + labels + "," + entries + "}"
+		}
+	}
+	body += `]}`
+	dec := &pushRequestDec{ctx: &ParserCtx{bodyReader: bytes.NewReader([]byte(body))}}
+	var got []vhEntry
+	dec.SetOnEntries(vhCollect(&got))
+	err := dec.Decode()
+	vrt.Assert(err == nil, "well-formed-body-accepted")
+	vrt.Assert(len(got) == len(want), "one-row-per-entry")
+	for i := range want {
+		vrt.Assert(got[i].ts == want[i].ts, "row-timestamp")
+		vrt.Assert(got[i].msg == want[i].msg, "row-line")
+		vrt.Assert(got[i].val == want[i].val, "row-value")
+		vrt.Assert(got[i].tp == want[i].tp, "row-type")
+		vrt.Assert(vhSameLabels(got[i].labels, want[i].labels), "row-own-stream-labels")
+	}
 	vrt.Reach("end")
 }
